@@ -11,7 +11,8 @@ def scenarios(ctx):
     base = gens.corpus(ctx.seed, q, cfgs=({}, {"autod": 1}), nrand=1 if q else 6, mutants=2 if q else 12)
     ex = gens.exchanges(ctx.seed, q, cfgs=({}, {"autod": 1}) if not q else ({},), maxcuts=None if not q else 40)
     # callback return values are not part of C05's quantifier (they are C01/C09's): every callback returns OK here
-    return base + ex
+    # stream gaps at every position of small exchanges (the gap rules of the two driver loops are part of HtpParser.tla)
+    return base + ex + gens.gaps(ctx.seed, q)
 
 
 def run(ctx):
